@@ -182,36 +182,45 @@ class VExecutor(object):
             self.world.executor_join(self)
 
 
-class VScheduler(object):
-    """Replaces cluster._Scheduler: same schedule/schedule_unique bookkeeping, virtual time."""
+_RealScheduler = _cluster._Scheduler
+
+
+class _VSchedQueue(object):
+    """Stands in for the scheduler's PriorityQueue: entries go to the world's list, from where the explorer
+    (World.fire_sched) moves a due one to the executor as _Scheduler.run() would."""
+    def __init__(self, sched):
+        self.sched = sched
+
+    def put_nowait(self, item):
+        run_at, i, task = item
+        if task is None:
+            return                      # the wake-up entry of _Scheduler.shutdown()
+        w = self.sched.world
+        w.sched_tasks.append((run_at, i, task, self.sched))
+        w.trace('schedule', round(run_at - w.clock.now, 9), getattr(task[0], '__qualname__', repr(task[0])))
+
+
+class VScheduler(_RealScheduler):
+    """cluster._Scheduler without its thread: schedule(), schedule_unique(), _insert_task() and shutdown() are the
+    driver's own code (so a change to them is seen by every check that builds a Cluster); only the queue (above) and
+    the run loop (World.fire_sched, one due entry per explorer event) are stand-ins, and the clock is the world's."""
     def __init__(self, executor):
-        self._executor = executor
+        # _Scheduler.__init__ minus Thread.start()
+        self._queue = _VSchedQueue(self)
         self._scheduled_tasks = set()
-        self.is_shutdown = False
+        self._count = itertools.count()
+        self._executor = executor
         self.world = RT.world
         self.world.schedulers.append(self)
-        self._count = itertools.count()
 
-    def shutdown(self):
-        self.is_shutdown = True
+    def start(self):
+        pass
 
     def join(self, timeout=None):
         pass
 
-    def schedule(self, delay, fn, *args, **kwargs):
-        self._insert_task(delay, (fn, args, tuple(kwargs.items())))
-
-    def schedule_unique(self, delay, fn, *args, **kwargs):
-        task = (fn, args, tuple(kwargs.items()))
-        if task not in self._scheduled_tasks:
-            self._insert_task(delay, task)
-
-    def _insert_task(self, delay, task):
-        if not self.is_shutdown:
-            run_at = self.world.clock.now + delay
-            self._scheduled_tasks.add(task)
-            self.world.sched_tasks.append((run_at, next(self._count), task, self))
-            self.world.trace('schedule', delay, getattr(task[0], '__qualname__', repr(task[0])))
+    def run(self):
+        raise RuntimeError('the scheduler thread does not exist in a virtual world')
 
 
 # ---------------------------------------------------------------------------- connection
